@@ -425,6 +425,8 @@ def default_env(name, descr):
         return Arr({}, 0)
     if name == "balance_00":
         return Arr({}, 0)
+    if name == "f_sha3_0":  # keccak256 of the empty string (a 0-ary symbol in halmos)
+        return 0xC5D2460186F7233C927E7DB2DCC703C0E500B653CA82273B7BFAD8045D85A470
     raise Unevaluable(f"free symbol {name} {descr}")
 
 
